@@ -143,6 +143,11 @@ func c23ErrClass(e string) string {
 	case strings.Contains(e, "trailing bytes"):
 		return "trailing-bytes"
 	case strings.Contains(e, "reserved flags"):
+		// the decoder's message starts with the packet type: the key names which packet type
+		// carried wrong fixed-header flags ("PUBREL: reserved flags 0xa")
+		if i := strings.Index(e, ": reserved flags"); i > 0 && !strings.ContainsAny(e[:i], " :") {
+			return "reserved-flags:" + e[:i]
+		}
 		return "reserved-flags"
 	case strings.Contains(e, "not allowed"):
 		return "property-not-allowed"
@@ -294,6 +299,187 @@ func c23Run(arg string) explore.HistFn {
 	}
 }
 
+// ---- E2 suite "c23flow": QoS 1/2 flows in both directions across session resumption ----
+//
+// Subject s (MQTT 3.1 / 3.1.1 / 5, chosen by the first op; persistent session, subscribed to t
+// at QoS 2) and a publisher p. The alphabet lets s answer - or not answer - every step of the
+// outbound flows (PUBACK, PUBREC, PUBCOMP; oldest or newest open step), leave an inbound QoS 2
+// flow half done (PUBLISH without PUBREL), lose / close / take over its connection and come
+// back with the session (also with a smaller Maximum Packet Size) or with a clean one. So
+// every kind of packet the session can hold (PUBLISH QoS 1/2, PUBREL, PUBREC) is resent on a
+// later connection, and everything written to every connection goes through c23Check.
+
+type c23Open struct {
+	id   uint16
+	resp byte // what s owes the broker for this packet identifier
+}
+
+func c23FlowRun(arg string) explore.HistFn {
+	maxPubs, maxConns := 2, 2
+	if strings.Contains(arg, "deep") {
+		maxPubs, maxConns = 3, 3
+	}
+	const smallMPS = 40
+	return func(hist []string) explore.HistResult {
+		h := newH(world.Config{})
+		infos := map[*world.Client]c23Info{}
+		counters := map[string]int{}
+		var ver byte
+		var open []c23Open
+		pubs, conns, spub := 0, 0, 0 // spub: 0 nothing, 1 inbound QoS 2 PUBLISH sent, 2 its PUBREL sent
+		ppid := uint16(100)
+		sconn := func(clean bool, mps uint32) ref.Packet {
+			if ver < 5 {
+				return world.ConnectPacket("s", ver, clean)
+			}
+			props := []ref.Prop{{ID: ref.PSessionExpiry, Num: 100}}
+			if mps > 0 {
+				props = append(props, ref.Prop{ID: ref.PMaximumPacketSize, Num: mps})
+			}
+			return world.ConnectPacket("s", ver, clean, props...)
+		}
+		// absorb updates what s owes from what it just received; resumed: the packets are what a
+		// new connection got in answer to its CONNECT.
+		absorb := func(pks []ref.Packet, resumed bool) {
+			for _, p := range pks {
+				resp := byte(0)
+				switch {
+				case p.Type == ref.PUBLISH && p.Qos == 1:
+					resp = ref.PUBACK
+				case p.Type == ref.PUBLISH && p.Qos == 2:
+					resp = ref.PUBREC
+				case p.Type == ref.PUBREL:
+					resp = ref.PUBCOMP
+				}
+				if resumed && h.last {
+					switch {
+					case p.Type == ref.PUBLISH && p.Qos > 0:
+						counters[fmt.Sprintf("resent_publish_qos%d", p.Qos)]++
+					case p.Type == ref.PUBREL:
+						counters["resent_pubrel"]++
+					case p.Type == ref.PUBREC:
+						counters["resent_pubrec"]++
+					}
+				}
+				if resp == 0 {
+					continue
+				}
+				found := false
+				for i := range open {
+					if open[i].id == p.PacketID {
+						open[i].resp, found = resp, true
+					}
+				}
+				if !found {
+					open = append(open, c23Open{p.PacketID, resp})
+				}
+			}
+		}
+		connect := func(p ref.Packet, in c23Info) {
+			open = nil // a new connection: s answers what this connection delivers
+			got := h.connect("s", p)
+			infos[h.Cl["s"]] = in
+			absorb(got, true)
+		}
+		runHist(h, hist, func(op string) {
+			f := fields(op)
+			switch f[0] {
+			case "s": // s:v3 | s:v4 | s:v5
+				ver = f[1][1] - '0'
+				h.connect("p", world.ConnectPacket("p", 4, true))
+				infos[h.Cl["p"]] = c23Info{Ver: 4}
+				connect(sconn(false, 0), c23Info{Ver: ver})
+				h.do("s", sub(1, "t", 2))
+			case "pub": // the publisher completes its side of the flow
+				pubs++
+				ppid++
+				q := f[1][0] - '0'
+				h.do("p", pub("t", fmt.Sprintf("m%d%s", pubs, strings.Repeat(".", 38)), q, ppid))
+				if q == 2 {
+					h.do("p", ref.Packet{Type: ref.PUBREL, PacketID: ppid})
+				}
+				if !h.Cl["s"].Closed() {
+					absorb(h.poll("s"), false)
+				}
+			case "spub": // inbound QoS 2 flow left half done: the session holds a PUBREC
+				spub = 1
+				absorb(h.do("s", pub("o", "in", 2, 77)), false)
+			case "srel":
+				spub = 2
+				absorb(h.do("s", ref.Packet{Type: ref.PUBREL, PacketID: 77}), false)
+			case "ack": // ack:old | ack:new
+				i := 0
+				if f[1] == "new" {
+					i = len(open) - 1
+				}
+				o := open[i]
+				open = append(open[:i:i], open[i+1:]...)
+				absorb(h.do("s", ref.Packet{Type: o.resp, PacketID: o.id}), false)
+			case "drop":
+				h.Cl["s"].Drop()
+				h.logf("s: connection lost")
+			case "disc":
+				h.do("s", ref.Packet{Type: ref.DISCONNECT})
+			case "conn": // conn:persist | conn:clean | conn:small (reconnection, or takeover of the live connection)
+				conns++
+				switch f[1] {
+				case "persist":
+					connect(sconn(false, 0), c23Info{Ver: ver})
+				case "clean":
+					connect(sconn(true, 0), c23Info{Ver: ver})
+				case "small":
+					connect(sconn(false, smallMPS), c23Info{Ver: ver, MaxSize: smallMPS})
+				}
+			}
+			for _, c := range h.All {
+				c.Poll()
+			}
+			if h.last {
+				for _, c := range h.All {
+					h.Viol = append(h.Viol, c23Check(c, infos[c])...)
+				}
+			}
+		})
+		var next []string
+		switch {
+		case len(hist) == 0:
+			next = []string{"s:v4", "s:v5", "s:v3"}
+		default:
+			if pubs < maxPubs {
+				next = append(next, "pub:2", "pub:1", "pub:0")
+			}
+			if conns < maxConns {
+				next = append(next, "conn:persist", "conn:clean")
+				if ver >= 5 {
+					next = append(next, "conn:small")
+				}
+			}
+			if !h.Cl["s"].Closed() {
+				if len(open) > 0 {
+					next = append(next, "ack:old")
+				}
+				if len(open) > 1 {
+					next = append(next, "ack:new")
+				}
+				switch spub {
+				case 0:
+					next = append(next, "spub")
+				case 1:
+					next = append(next, "srel")
+				}
+				next = append(next, "drop", "disc")
+			}
+		}
+		key := ""
+		if len(hist) > 0 {
+			key = fmt.Sprintf("%s|v%d open=%v pubs=%d conns=%d spub=%d closed=%v err=%v", h.W.State(), ver, open, pubs, conns, spub, h.Cl["s"].Closed(), h.Cl["s"].Err != nil)
+		}
+		r := h.finish(key, next)
+		r.Counters = counters
+		return r
+	}
+}
+
 func c23UserProp(ver byte) ref.Props {
 	if ver < 5 {
 		return nil
@@ -365,10 +551,26 @@ func c23Size(arg string) explore.CaseSet {
 func init() {
 	explore.RegisterCases("c23size", c23Size)
 	explore.RegisterBFS("c23", c23Run)
+	explore.RegisterBFS("c23flow", c23FlowRun)
 	explore.RegisterDFS("c23", c23RunDFS)
 	explore.Register("C23", func(c *explore.Ctx) {
 		c.Rep.Level = "model_checking"
 		c.Rep.Assumption("broker output is judged by an independent strict MQTT decoder (ref/codec.go) configured with the protocol version the client connected with")
+		// the flow/resumption suite first: it is small and its levels are explored in order, so
+		// the short decisive histories are judged even when the machine is loaded
+		var flow *explore.BFSStats
+		if c.Quick() {
+			flow = explore.RunBFS(c, "c23flow", "", 6, 15*time.Second)
+		} else {
+			flow = explore.RunBFS(c, "c23flow", "deep", 8, 150*time.Second)
+		}
+		if flow.Transitions > 0 {
+			for _, k := range []string{"resent_publish_qos1", "resent_publish_qos2", "resent_pubrel", "resent_pubrec"} {
+				if flow.Counters[k] == 0 {
+					c.Rep.Add(explore.Violation{Key: "internal:vacuous:c23flow-" + k, Msg: fmt.Sprintf("the flow suite never saw this kind of packet resent on a resumed session: %v", flow.Counters)})
+				}
+			}
+		}
 		if c.Quick() {
 			explore.RunBFS(c, "c23", "v3only", 3, 25*time.Second)
 			explore.RunBFS(c, "c23", "v5only", 3, 25*time.Second)
